@@ -72,7 +72,7 @@ const cachePrefix = "filters"
 
 // toInternal converts the service from the index to a rule-list filter.  It
 // also adds the cache with ID "[internal.IDBlockedService]/[svc.ID]" to
-// the cache manager.
+// the cache manager.  svc may be nil, in which case an error is returned.
 func (svc *indexRespService) toInternal(
 	ctx context.Context,
 	logger *slog.Logger,
@@ -81,6 +81,10 @@ func (svc *indexRespService) toInternal(
 	cacheCount int,
 	useCache bool,
 ) (svcID internal.BlockedServiceID, rl *rulelist.Immutable, err error) {
+	if svc == nil {
+		return "", nil, errors.ErrNoValue
+	}
+
 	svcID, err = internal.NewBlockedServiceID(svc.ID)
 	if err != nil {
 		return "", nil, fmt.Errorf("validating id: %w", err)
